@@ -23,8 +23,9 @@ Definition C14_full_statement : Prop :=
   /\ exact always step_s guards_s
   (* a rejected call changes nothing: on the @builder copy only harmless effects precede a raise ... *)
   /\ raise_safe effects = true
-  (* ... and on builders created with immutable=False nothing at all precedes it *)
-  /\ mutable_unsafe effects = [].
+  (* ... and on builders created with immutable=False nothing is left written when it happens (a method the
+     path-insensitive walk flags must be one whose flagged raise the model proves dead: C14_select_atomic) *)
+  /\ forallb (fun m => existsb (String.eqb m) dead_raise_methods) (mutable_unsafe effects) = true.
 
 (* ------------------------------------------------------------------------------------------ *)
 (* what holds: every conjunct but the last one, without any restriction                        *)
@@ -42,10 +43,13 @@ Definition crit_tableless : list (jfield * jfield) := [((None, "x"), (Some (TTab
 Definition crit_shadow : list (jfield * jfield) :=
   [((Some (TTab ta_s1), "id"), (Some (TTab tb), "k")); ((Some (TTab ta), "id"), (Some (TTab tb), "id"))].
 
-(* the guard half of the statement holds in full: for every kind of object, all states and all calls of the
-   contract, a call raises class k exactly when the documented table says so (no fragment left) *)
+(* the guard half of the statement holds for every kind of object, all states and all calls of the contract: a call
+   raises class k exactly when the documented table says so -- outside the one situation frag_q excludes (a join
+   criterion naming a sub-query that is no source but has the alias and the FROM table of one that is) *)
+Definition exact_on {S C : Type} (wf frag : S -> C -> bool) (step : S -> C -> res S) (gs : list (guard (S * C))) : Prop :=
+  forall s c k, wf s c = true -> frag s c = true -> (step s c = Err k <-> first_fired gs (s, c) = Some k).
 Definition C14_guards_statement : Prop :=
-  exact wf_q step_q guards_q
+  exact_on wf_q frag_q step_q guards_q
   /\ exact wf_c step_c guards_c
   /\ exact wf_d step_d guards_d
   /\ exact always step_t guards_t
@@ -56,7 +60,7 @@ Definition C14_guards_statement : Prop :=
 
 Theorem C14_guards_hold : C14_guards_statement.
 Proof.
-  unfold C14_guards_statement, exact.
+  unfold C14_guards_statement, exact, exact_on.
   split; [exact guards_q_exact|]. split; [exact guards_c_exact|]. split; [exact guards_d_exact|].
   split; [intros; apply guards_t_exact|]. split; [intros; apply guards_w_exact|].
   split; [intros; apply guards_k_exact|]. split; [intros; apply guards_f_exact|].
@@ -64,19 +68,19 @@ Proof.
 Qed.
 Print Assumptions C14_guards_hold.
 
-(* the full statement with its last conjunct replaced by what the sources give: with immutable=False exactly two
-   methods can have written before they raise -- returning() (finding C14-mutable-returning-partial: earlier terms of a
-   rejected call stay applied) and select() (only syntactically: see C14_select_atomic) *)
+(* the full statement on the fragment frag_q (everything but the sub-query finding), with the exact list of flagged
+   methods (select() only, and only syntactically: see C14_select_atomic) and the documented exception classes *)
 Definition C14_fragment_statement : Prop :=
   C14_guards_statement
   /\ raise_safe effects = true
+  /\ forallb (fun m => existsb (String.eqb m) dead_raise_methods) (mutable_unsafe effects) = true
   /\ mutable_unsafe effects = expected_mutable_unsafe
   /\ classes_ok effects expected_raises = true.
 
 Theorem C14_on_fragment : C14_fragment_statement.
 Proof.
   split; [exact C14_guards_hold|].
-  split; [vm_compute; reflexivity|]. split; [vm_compute; reflexivity|]. vm_compute; reflexivity.
+  split; [vm_compute; reflexivity|]. split; [vm_compute; reflexivity|]. split; [vm_compute; reflexivity|]. vm_compute; reflexivity.
 Qed.
 Print Assumptions C14_on_fragment.
 
@@ -99,36 +103,50 @@ Print Assumptions C14_select_atomic.
 (* ------------------------------------------------------------------------------------------ *)
 (* the full statement is still false: the one remaining finding                                 *)
 (* ------------------------------------------------------------------------------------------ *)
-(* C14-mutable-returning-partial: with immutable=False, returning(t1, t2) has appended t1 when t2 is rejected *)
-Theorem C14_refuted_mutable : mutable_unsafe effects = expected_mutable_unsafe /\ expected_mutable_unsafe <> [].
-Proof. split; [vm_compute; reflexivity | discriminate]. Qed.
-Print Assumptions C14_refuted_mutable.
+(* C14-join-subquery-same-alias-same-from: s1 = from_(c).select(x, y) AS s is joined; a criterion over
+   s3 = from_(c).select(y, z) AS s -- another sub-query, same alias, same FROM table -- is accepted *)
+Definition sub_s1 := TSub (Some "s") "c" 0.
+Definition sub_s3 := TSub (Some "s") "c" 1.
+Definition sub_s2 := TSub (Some "s") "d" 0.
+Definition crit_sub (t : tbl) : list (jfield * jfield) := [((Some (TTab ta), "x"), (Some t, "z"))].
+Theorem C14_refuted_subquery_same_alias_same_from :
+  wf_q sel_a (QJoin sub_s1 (JOn (Some (crit_sub sub_s3)))) = true
+  /\ (exists s', step_q sel_a (QJoin sub_s1 (JOn (Some (crit_sub sub_s3)))) = Ok s')
+  /\ first_fired guards_q (sel_a, QJoin sub_s1 (JOn (Some (crit_sub sub_s3)))) = Some JoinExc
+  (* the neighbours are judged as documented: own fields accepted, same alias / other FROM table rejected *)
+  /\ (exists s', step_q sel_a (QJoin sub_s1 (JOn (Some (crit_sub sub_s1)))) = Ok s')
+  /\ step_q sel_a (QJoin sub_s1 (JOn (Some (crit_sub sub_s2)))) = Err JoinExc.
+Proof. vm_compute. repeat split; eexists; reflexivity. Qed.
+Print Assumptions C14_refuted_subquery_same_alias_same_from.
 
 Theorem C14_refuted : ~ C14_full_statement.
 Proof.
-  intros [_ [_ [_ [_ [_ [_ [_ [_ [_ H]]]]]]]]].
-  destruct C14_refuted_mutable as [E Hne]. rewrite H in E. apply Hne. now symmetry.
+  intros [Hq _].
+  destruct C14_refuted_subquery_same_alias_same_from as [Hwf [[s' Hstep] [Hfire _]]].
+  pose proof (proj2 (Hq _ _ JoinExc Hwf)) as H.
+  assert (E : step_q sel_a (QJoin sub_s1 (JOn (Some (crit_sub sub_s3)))) = Err JoinExc) by (apply H; exact Hfire).
+  rewrite Hstep in E. discriminate.
 Qed.
 Print Assumptions C14_refuted.
 
 (* the two polarities, spelled out for QueryBuilder objects *)
-Theorem C14_g_fires : forall s c g, wf_q s c = true ->
+Theorem C14_g_fires : forall s c g, wf_q s c = true -> frag_q s c = true ->
   In g guards_q -> g_cond g (s, c) = true -> exists k, step_q s c = Err k.
 Proof.
-  intros s c g Hwf Hin Hc. destruct (fires_first_fired _ guards_q (s, c) g Hin Hc) as [k Hk].
+  intros s c g Hwf Hfr Hin Hc. destruct (fires_first_fired _ guards_q (s, c) g Hin Hc) as [k Hk].
   exists k. now apply guards_q_exact.
 Qed.
 Print Assumptions C14_g_fires.
 
-Theorem C14_g_only_fires : forall s c k, wf_q s c = true -> step_q s c = Err k ->
+Theorem C14_g_only_fires : forall s c k, wf_q s c = true -> frag_q s c = true -> step_q s c = Err k ->
   exists g, In g guards_q /\ g_cond g (s, c) = true /\ g_exn g = k.
-Proof. intros s c k Hwf H. apply first_fired_sound. now apply guards_q_exact. Qed.
+Proof. intros s c k Hwf Hfr H. apply first_fired_sound. now apply guards_q_exact. Qed.
 Print Assumptions C14_g_only_fires.
 
 (* for all call histories inside the contract: per call, outcome of the model = what the table documents *)
 Theorem C14_histories : forall cs s,
-  hist_ok wf_q step_q s cs = true -> snd (run step_q s cs) = spec_outs guards_q step_q s cs.
-Proof. apply history_exact. exact guards_q_exact. Qed.
+  hist_ok (fun s c => wf_q s c && frag_q s c) step_q s cs = true -> snd (run step_q s cs) = spec_outs guards_q step_q s cs.
+Proof. apply history_exact. intros s c k H. apply andb_prop in H. destruct H. now apply guards_q_exact. Qed.
 Print Assumptions C14_histories.
 
 (* a rejected call returns no new state: the history continues from the state before it *)
@@ -172,12 +190,27 @@ Example C14_example_join :
   /\ first_fired guards_q (s, QJoin (TTab tc) (JOn (Some bad))) = Some JoinExc.
 Proof. vm_compute. repeat split. eexists. reflexivity. Qed.
 
+(* sub-queries as join items, named explicitly or by the statement (sq<n>): own fields accepted, another sub-query
+   rejected -- same alias over another table, another alias, no alias *)
+Example C14_example_subquery :
+  let u1 := TSub None "c" 0 in let u2 := TSub (Some "sq0") "d" 0 in let u4 := TSub None "c" 2 in
+  hist_ok (fun s c => wf_q s c && frag_q s c) step_q sel_a
+    [QJoin u1 (JOn (Some (crit_sub u2))); QJoin u1 (JOn (Some (crit_sub u4))); QJoin u1 (JOn (Some (crit_sub u1)));
+     QJoin (TTab tb) (JOn (Some (crit_sub (TSub (Some "sq0") "c" 0)))); QJoin u4 (JOn (Some (crit_sub (TSub (Some "sq1") "c" 2))));
+     QJoin (TTab tb) (JOn (Some (crit_sub (TSub (Some "other") "c" 0))))] = true
+  /\ snd (run step_q sel_a
+    [QJoin u1 (JOn (Some (crit_sub u2))); QJoin u1 (JOn (Some (crit_sub u4))); QJoin u1 (JOn (Some (crit_sub u1)));
+     QJoin (TTab tb) (JOn (Some (crit_sub (TSub (Some "sq0") "c" 0)))); QJoin u4 (JOn (Some (crit_sub (TSub (Some "sq1") "c" 2))));
+     QJoin (TTab tb) (JOn (Some (crit_sub (TSub (Some "other") "c" 0))))])
+     = [Some JoinExc; Some JoinExc; None; None; None; Some JoinExc].
+Proof. vm_compute. split; reflexivity. Qed.
+
 (* a reference to a WITH query is judged when the statement is rendered: with_() may follow the join (160d589) *)
 Example C14_example_with_reference :
   let w := [((Some (TAlq "w1"), "x"), (Some (TTab tb), "x"))] in
   snd (run step_q (q_init QGeneric) [QFrom (TTab ta); QJoin (TTab tb) (JOn (Some w)); QRender; QSelect [SStr true]; QRender; QWith "w1"; QRender])
   = [None; None; None; None; Some JoinExc; None; None]
-  /\ hist_ok wf_q step_q (q_init QGeneric) [QFrom (TTab ta); QJoin (TTab tb) (JOn (Some w)); QRender; QSelect [SStr true]; QRender; QWith "w1"; QRender] = true.
+  /\ hist_ok (fun s c => wf_q s c && frag_q s c) step_q (q_init QGeneric) [QFrom (TTab ta); QJoin (TTab tb) (JOn (Some w)); QRender; QSelect [SStr true]; QRender; QWith "w1"; QRender] = true.
 Proof. vm_compute. split; reflexivity. Qed.
 
 (* the situations repaired in pypika (a7c7bb0, 7e8ce52, 55ed75e, a9c45a1, f36e217, bed0bb3) agree with the table *)
@@ -203,7 +236,7 @@ Example C14_example_returning :
   let t1 := RFn FPlain [RFn FAgg [RField (Some ta) "x"]; RConst] in     (* COALESCE(SUM(a.x), 0): aggregate *)
   let t2 := RFn FPlain [RField (Some ta) "x"; RConst] in                (* own table *)
   let t3 := RField (Some tzz) "x" in                                    (* foreign table *)
-  hist_ok wf_q step_q ins_a [QReturning [t2]; QReturning [t1]; QReturning [t2; t3]; QReturning [RStr true; t3]] = true
+  hist_ok (fun s c => wf_q s c && frag_q s c) step_q ins_a [QReturning [t2]; QReturning [t1]; QReturning [t2; t3]; QReturning [RStr true; t3]] = true
   /\ snd (run step_q ins_a [QReturning [t2]; QReturning [t1]; QReturning [t2; t3]; QReturning [RStr true; t3]])
      = [None; Some QueryExc; Some QueryExc; None].
 Proof. vm_compute. split; reflexivity. Qed.
